@@ -57,12 +57,13 @@ OpPanic(ev) == ev.panic /\ ~ev.panicread
 StepViol(ev, E2, r) ==
     IF OpPanic(ev) THEN {}
     ELSE
-    {n \in {"LegalDisappear", "OnlyAddsKey", "UnrelatedUntouched", "NoCloserVictim",
+    {n \in {"LegalDisappear", "OnlyAddsKey", "UnrelatedUntouched", "NoCloserVictim", "VictimUnprotected",
             "ReportedVictimGone", "EvictOnlyWhenFull", "ExpireExact", "DeleteExact", "PutStores"} :
         CASE n = "LegalDisappear" -> ~LegalDisappearP(ents, E2, r)
           [] n = "OnlyAddsKey" -> ~OnlyAddsKeyP(ents, E2, r)
           [] n = "UnrelatedUntouched" -> ~UnrelatedUntouchedP(ents, E2, r)
           [] n = "NoCloserVictim" -> ~NoCloserVictimP(ents, E2, r)
+          [] n = "VictimUnprotected" -> ~VictimUnprotectedP(ents, E2, r)
           [] n = "ReportedVictimGone" -> ~ReportedVictimGoneP(ents, E2, r)
           [] n = "EvictOnlyWhenFull" -> ~EvictOnlyWhenFullP(ents, E2, r)
           [] n = "ExpireExact" -> ~ExpireExactP(ents, E2, r)
